@@ -205,6 +205,20 @@ pub fn run(cfg: &Cfg, rep: &mut Report) {
         }
     });
     // ---- boundary-value modules, plain and mutated
+    // type-width histories (C10's generator: numeric type declarations, value definitions, literal consumers,
+    // ids used before their definition): acceptance and delivered content by the reference parser
+    run_stage(cfg, rep, "width-histories", cfg.n(20_000, 3_000_000), |idx, rng, r| {
+        let h = crate::mon::c10::gen_history_ids(rng, 100, if idx % 3 == 0 { Some(idx | 1) } else { None });
+        let mut w = crate::gram::header_varied(idx, 1 << 22);
+        for i in &h.insts {
+            w.extend(i.enc());
+        }
+        let bytes = words_to_bytes(&w);
+        let rp = || crate::util::replay_ref(cfg, "width-histories", idx);
+        if let Some(k) = compare(&bytes, "type-width history", r, &rp, "C03") {
+            r.nontrivial(format!("hist:{}", k));
+        }
+    });
     run_stage(cfg, rep, "scale", cfg.n(crate::scale::N_VARIANTS * 16, crate::scale::N_VARIANTS * 600), |idx, rng, r| {
         let (label, insts) = crate::scale::scale_module(rng, idx % crate::scale::N_VARIANTS);
         let (words, _m, starts) = genmod::encode_module(0x0001_0600, 0, 1 << 22, &insts, None);
